@@ -380,7 +380,11 @@ class CallMixin:
                 raise PyExc(self.reg.exc_class(exc_name))
         for target, kind in c.modifies.items():
             self.havoc_target(target, kind, fr)
-        res = c.result_maker(self, fr) if c.result_maker else (self.make_sym("ret_" + c.short, c.returns) if c.returns else None)
+        if getattr(c, "returns_expr", None):
+            # the contract pins the result to a spec term: use that term itself (no fresh symbol)
+            res = self.eval_spec(c.returns_expr, fr)
+        else:
+            res = c.result_maker(self, fr) if c.result_maker else (self.make_sym("ret_" + c.short, c.returns) if c.returns else None)
         fr.env["result"] = res
         old_outcome = self.outcome
         self.outcome = ("return", res)
@@ -675,10 +679,12 @@ class CallMixin:
             raise Undecided("negative modular exponent")
         tb = self.it(b)
         if e <= 4:
-            r = I(1)
-            for _ in range(e):
-                r = r * tb
-            return self.mkint(r % m)
+            if e == 0:
+                return 1 % m
+            r = b
+            for _ in range(e - 1):
+                r = self.binop(ast.Mult(), r, b)
+            return self.binop(ast.Mod(), r, m)
         f = UF("modpow_%d_%d" % (e, m), z3.IntSort(), z3.IntSort())
         t = f(tb % m)
         self.p.assume(z3.And(t >= 0, t < m))
@@ -774,6 +780,30 @@ class CallMixin:
         if isinstance(a[0], tuple) and a[0][0] == "$hex":
             return a[0][1]
         raise Undecided("fromhex of symbolic")
+
+    def b_pack(self, a, k):
+        """struct.pack for fixed-size integer formats"""
+        fmt = a[0]
+        if not isinstance(fmt, str):
+            raise Undecided("struct.pack with symbolic format")
+        end = "little"
+        if fmt and fmt[0] in "<>!=@":
+            end = "little" if fmt[0] in "<" else "big" if fmt[0] in ">!" else __import__("sys").byteorder
+            codes = fmt[1:]
+        else:
+            codes = fmt
+        size = {"B": 1, "H": 2, "L": 4, "I": 4, "Q": 8}
+        vals = list(a[1:])
+        out = []
+        if len(codes) != len(vals) or any(c not in size for c in codes):
+            raise Undecided("struct.pack format %r" % fmt)
+        for c, v in zip(codes, vals):
+            try:
+                out += as_chunks(self.int_to_bytes(v, size[c], end))
+            except PyExc:
+                import struct
+                raise PyExc(struct.error)
+        return mk_bytes(out)
 
     def b_randbits(self, a, k):
         n = a[0]
